@@ -414,6 +414,24 @@ def run(ctx):
         ctx.check(ok, "R3.5", "JsonRecordPacker.register:dedupe-by-identifier", f"register returns early when {sorted(facts)}", e, "early return only for a known identifier")
 
 
+
+
+    # ------------------------------------------------------------------ R3.7 nested records are decoded by the hook
+    ctx.rule("R3.7", "JsonfileReader obtains every object through JsonRecordPacker.unpack (json.loads with object_hook, applied depth-first): a reader that "
+                     "parses the line itself and converts only the top level leaves records nested in record / record[] fields as plain dicts without descriptor")
+    jri = ctx.anchor_func("flow.record.adapter.jsonfile.JsonfileReader.__iter__")
+    direct = [c for c in calls_in(jri) if isinstance(c.func, ast.Attribute) and c.func.attr == "unpack_obj"]
+    via = [c for c in calls_in(jri) if isinstance(c.func, ast.Attribute) and c.func.attr == "unpack" and "packer" in norm(c.func.value)]
+    ctx.check(bool(via) and not direct, "R3.7", "JsonfileReader.__iter__:decodes-through-hook", "the reader calls unpack_obj on an already parsed line (top level only) instead of "
+              "packer.unpack(line)", direct[0] if direct else jri, "obj = self.packer.unpack(line)", key="R3.7:JsonfileReader:top-level-only-decoding")
+    jpu = ctx.anchor_func("flow.record.jsonpacker.JsonRecordPacker.unpack")
+    loads = [c for c in calls_in(jpu) if call_name(c) in ("json.loads", "json.load")]
+    hook = bool(loads) and all(any(k.arg == "object_hook" and norm(k.value) == "self.unpack_obj" for k in c.keywords) for c in loads)
+    ctx.check(hook, "R3.7", "JsonRecordPacker.unpack:object_hook", "json.loads is not given object_hook=self.unpack_obj", jpu, "json.loads(d, object_hook=self.unpack_obj)",
+              key="R3.7:JsonRecordPacker.unpack:no-hook")
+
+
+
 def enclosing_stmt_of(node):
     n = node
     while n is not None and not isinstance(n, ast.stmt):
